@@ -181,7 +181,7 @@ Qed.
 Lemma prod_sizes_rev dims : prod_sizes (rev dims) = prod_sizes dims.
 Proof.
   induction dims as [|d r IH]; [reflexivity|]. cbn [rev]. rewrite prod_sizes_app, IH.
-  unfold prod_sizes. cbn. lia.
+  unfold prod_sizes. cbn [shape_of map prodN]. rewrite N.mul_1_r. apply N.mul_comm.
 Qed.
 
 Lemma is_contiguous_offsets dims :
